@@ -72,6 +72,23 @@ fn main() {
         }
         return;
     }
+    if args.len() == 3 && args[1] == "--attack" {
+        // translator validation for engine B: lines "rook|bishop <sq> <occ>" -> the real look-up's answer
+        let txt = std::fs::read_to_string(&args[2]).expect("read");
+        for line in txt.lines() {
+            let p: Vec<&str> = line.split_whitespace().collect();
+            if p.len() != 3 {
+                continue;
+            }
+            let sq: usize = p[1].parse().unwrap();
+            let occ: u64 = p[2].parse().unwrap();
+            let c = owlchess::Coord::from_index(sq);
+            let o = owlchess::Bitboard::from_raw(occ);
+            let r = if p[0] == "rook" { owlchess::verif::rook(c, o) } else { owlchess::verif::bishop(c, o) };
+            println!("{}", r.as_raw());
+        }
+        return;
+    }
     if args.len() != 3 {
         eprintln!("usage: replay <harness> <vals.json>");
         std::process::exit(2);
